@@ -55,6 +55,10 @@ PROPS['C18'] = dict(
     mc=dict(quick=[mc('MC_SectionWriter', 'MC_SectionWriter_q.cfg', expect_min_distinct=5000)],
             thorough=[mc('MC_SectionWriter', 'MC_SectionWriter.cfg', expect_min_distinct=5000)]),
     need_kinds=['sw'],
+    apalache=dict(quick=[dict(module='SectionWriterInd', cinit='CInit', runs=[('Init', 'IndInv', 0), ('IndInit', 'IndInv', 1), ('IndInit', 'Property', 0)],
+                              refute=[('IndInit', 'BadNeverWrites', 1), ('IndInit', 'BadCursorStays', 1), ('IndInit', 'BadNeverShort', 1)])],
+                  thorough=[dict(module='SectionWriterInd', cinit='CInit', runs=[('Init', 'IndInv', 0), ('IndInit', 'IndInv', 1), ('IndInit', 'Property', 0)],
+                                 refute=[('IndInit', 'BadNeverWrites', 1), ('IndInit', 'BadCursorStays', 1), ('IndInit', 'BadNeverShort', 1)])]),
     gen=dict(quick=[sim('Gen_SectionWriter', 'Gen_SectionWriter.cfg', 400, 20, 'sw')],
              thorough=[sim('Gen_SectionWriter', 'Gen_SectionWriter_t.cfg', 10000, 24, 'sw', shards=8)]),
     rule='a case is one SectionWriter/AtToWriter history over a scripted underlying io.WriterAt (accepts k bytes, optionally fails): '
